@@ -1036,6 +1036,12 @@ pub fn bed_family(tier: Tier) -> Box<dyn Iterator<Item = FileCase>> {
             }
         }
     }
+    // ... and than 16 MiB (a bound a reader might put on a NUL-terminated string)
+    for (len, two_pass) in [(16_777_300u32, false), (20_000_003, true)] {
+        let mut o = Opts::base();
+        o.two_pass = two_pass;
+        longsql.push(FileCase::BedLongSql { len, opts: o });
+    }
     // `rest` fields longer than the 8 KiB and 64 KiB buffers on the way
     let mut longrest = vec![];
     for len in [8190u32, 8193, 70_000] {
